@@ -266,6 +266,16 @@ fn leak_case(out: &mut Out, file_mode: bool, seedcase: &str, level: &str, varian
         "unknown-key" => entries.push(("no_such_setting".into(), "17".into())),
         "bad-int" => entries.push(("status_interval".into(), "abc".into())),
         "stats-no-dir" => entries.push(("client_stats".into(), "\"on\"".into())),
+        // a setting that is wrong together with the seed itself, so that a diagnostic about the seed is produced
+        // (seeded change C20-r5: a "helpful" message printed the value of a too-short "encrypted" seed)
+        "kms-aws" => entries.push(("kms_protection".into(), "\"arn:aws:kms:us-east-2:111122223333:key/1234abcd-12ab-34cd-56ef-1234567890ab\"".into())),
+        "kms-gcp" => entries.push(("kms_protection".into(), "projects/p/locations/global/keyRings/r/cryptoKeys/k".into())),
+        "kms-bad" => entries.push(("kms_protection".into(), "vault".into())),
+        "seed-long" => { entries[2].1.push_str("ab"); }
+        "bad-port" => { entries[0].1 = "0".into(); }
+        "bad-workers" => entries.push(("num_workers".into(), "0".into())),
+        "bad-fault" => entries.push(("fault_percentage".into(), "99".into())),
+        "dir-missing" => { entries.push(("client_stats".into(), "\"on\"".into())); entries.push(("persistence_directory".into(), "/nonexistent/verif/dir".into())); }
         _ => {}
     }
     if rev { entries.reverse(); }
@@ -310,10 +320,11 @@ pub fn run_leak(ctx: &Ctx) {
     for file_mode in [true, false] {
         for seedcase in ["lower", "upper", "mixed"] {
             for level in ["off", "error", "warn", "info", "debug", "trace"] {
-                for variant in ["valid", "bad-batch", "unknown-key", "bad-int", "stats-no-dir"] {
+                for variant in ["valid", "bad-batch", "unknown-key", "bad-int", "stats-no-dir", "kms-aws", "kms-gcp", "kms-bad", "seed-long",
+                                "bad-port", "bad-workers", "bad-fault", "dir-missing"] {
                     n += 1;
                     if !out.mine() { out.skip(); continue; }
-                    if !ctx.thorough && (n % 2 == 0) && level != "trace" && level != "debug" { out.skip(); continue; }
+                    if !ctx.thorough && (n % 3 != 0) && level != "trace" && level != "error" { out.skip(); continue; }
                     let seed = r.bytes(32);
                     let rev = r.chance(1, 2);
                     leak_case(&mut out, file_mode, seedcase, level, variant, rev, &seed, n);
